@@ -318,13 +318,13 @@ package shmipc
 //@ func blockReadFull
 //@   ghost var got int = 0
 //@   at call unix.Read#0 ghost got := got + ite(r1 == nil, r0, 0)
-//@   ensures  result == nil ==> readSize == len(data) && got == len(data)
+//@   exit     result == nil ==> readSize == len(data) && got == len(data)
 //@   loop 0 invariant 0 <= readSize && readSize <= len(data) && readSize == got
 
 //@ func blockWriteFull
 //@   ghost var sent int = 0
 //@   at call unix.Write#0 ghost sent := sent + ite(r1 == nil, r0, 0)
-//@   ensures  result == nil ==> written == len(data) && sent == len(data)
+//@   exit     result == nil ==> written == len(data) && sent == len(data)
 //@   loop 0 invariant 0 <= written && written <= len(data) && written == sent
 //@   modifies nothing
 
@@ -444,7 +444,7 @@ package shmipc
 //@ func (*connEventHandler).write
 //@   ghost var sent int = 0
 //@   at call unix.Syscall#0 ghost sent := sent + ite(r2 == 0, r0, 0)
-//@   ensures  r0 == nil ==> written == len(data) && sent == len(data)
+//@   exit     r0 == nil ==> written == len(data) && sent == len(data)
 //@   loop 0 invariant 0 <= written && written <= size && size == len(data) && written == sent
 //@   modifies nothing
 
